@@ -11,7 +11,7 @@ import vlib
 from vlib import Verdict
 
 PID = "C09"
-PROPS = [("theories/Region/Props.v", "Region.Props")]
+PROPS = [("theories/Region/Props.v", "Region.Props"), ("theories/Region/PropsRead.v", "Region.PropsRead")]
 AREAS = ["theories/Region"]
 ROOTS = ("ov_c09",)
 CONV_BOUND = 4          # C09_converges: rounds until the request is served by the current leader
@@ -185,11 +185,12 @@ def go_locate_bucket(keys, key):
 def check_seq(sq, fails, stats):
     """evaluates the property oracles on the implementation's outputs; appends (oracle, op idx, detail, finding_class)"""
     prev_latest, prev_ents = {}, {}
-    for op in sq.ops:
+    for opi, op in enumerate(sq.ops):
         name, a, res = op["op"], op["args"], op["res"]
         ok = res.startswith("ok")
         body = res[3:] if ok else ""
         stats["oracle_evals"] += 1
+        before = sq.ops[opi - 1]["dump"] if opi > 0 else None
 
         def fail(oracle, detail, fc=""):
             fails.append(dict(oracle=oracle, op=op, detail=detail, finding_class=fc, _seq=sq))
@@ -283,6 +284,29 @@ def check_seq(sq, fails, stats):
             if keys and not firstok:
                 fail("C09_group_partition", "first region %s is not the group of the first key" % first)
         # a lookup must not fail when every PD answer it got was usable (non-empty, every region with a leader)
+        if name == "ctxread" and ok and before and before[0] != "_":
+            # replica reads, judged on the cache content before the call: the entry of that version, its peers, the store epochs
+            vid = tuple(int(x) for x in a[0].split(","))
+            kind, seed, lo = a[1], int(a[2]), a[3] == "1"
+            pr, idx = body.split(" ")[0], int(body.split(" ")[1])
+            cand = [f for f in (x.split(",") for x in before[0].split(";")) if (int(f[0]), int(f[1]), int(f[2])) == vid]
+            if len(cand) == 1:
+                f = cand[0]
+                peers, rec, work = f[9].split("/"), [int(x) for x in f[10].split("/")], int(f[5])
+                sep = dict((int(x.split(">")[0]), int(x.split(">")[1])) for x in before[3].split(";")) if before[3] != "_" else {}
+                fresh = lambda j: sep.get(int(peers[j].split(":")[1]), 0) == rec[j]
+                stats["replica_reads"] = stats.get("replica_reads", 0) + 1
+                what = "GetTiKVRPCContext(%s, %s, seed %d%s) returned peer %s at index %d; entry peers %s work %d recorded epochs %s store epochs %s" % (
+                    a[0], kind, seed, ", leaderOnly" if lo else "", pr, idx, f[9], work, f[10], before[3])
+                if idx >= len(peers) or peers[idx] != pr or not fresh(idx):
+                    fail("C09_read_ctx_sound", what + ": not a peer of the entry on a store nobody failed on")
+                elif kind == "follower" and len(peers) > 1 and seed + len(peers) <= 2 ** 32 and idx == work and any(fresh(j) for j in range(len(peers)) if j != work):
+                    fail("C09_read_ctx_follower", what + ": the leader although a follower's store is fine")
+                    stats["follower_fallbacks"] = stats.get("follower_fallbacks", 0)
+                elif ((kind == "preferleader" and fresh(work)) or (lo and kind in ("mixed", "preferleader")) or kind in ("leader", "learner")) and idx != work:
+                    fail("C09_read_ctx_prefer_leader", what + ": must be the work peer")
+                if kind == "follower" and idx == work and len(peers) > 1 and seed + len(peers) > 2 ** 32 and any(fresh(j) for j in range(len(peers)) if j != work):
+                    stats["obs_follower_seed_wrap"] = stats.get("obs_follower_seed_wrap", 0) + 1
         if res == "err" and name in ("locate", "locate_end", "range", "batch", "loadrange", "bload", "bloads", "group", "listids") and op["qs"]:
             usable = all(q[-1] not in ("none", "_") for q in op["qs"]) and qs_all_have_leader(op) and \
                      all(d["leader"].split(":")[0] != "0" for q in op["qs"] if q[0] in ("get", "prev", "byid") for d in parse_descs(q[-1]))
@@ -447,6 +471,13 @@ def main(tier, replay):
             v.violation({"kind": "property-oracle", "oracle": "C09_range_gap_free(mock PD client)", "case": ["probe-mockpd"],
                          "what": "regions [-inf,b) id3 [b,d) id4 [d,+inf) id5, cold cache over mocktikv.NewPDClient: BatchLocateKeyRanges([a,a1),[e,+inf)) "
                                  "must return regions 3 and 5", "implementation_result": pl[:1] or pr[-300:]})
+    if okg and okm and not replay:
+        # observation only (no clause of C09): follower read with seed 2^32-1 on a 4-peer region whose followers 1, 2 failed
+        try:
+            pw = subprocess.run([exe, "probe-follower-wrap"], env=env, stdout=subprocess.PIPE, stderr=subprocess.PIPE, timeout=120).stdout.decode(errors="replace")
+            stats["probe_follower_wrap"] = [l.split("\t", 1)[1].replace("\t", " ") for l in pw.splitlines() if l.startswith("PROBE\t")][:2]
+        except Exception as ex:
+            stats["probe_follower_wrap"] = ["probe failed: %s" % ex]
     if okg and okm:
         case = None
         if replay:
@@ -537,10 +568,10 @@ def main(tier, replay):
     if not gate["ok"]:
         v.violation({"kind": "proof", "theorem_or_file": gate["problems"], "what": "Coq obligations no longer check"}, has_input=False)
     if tier == "thorough" and gate["ok"]:
-        okc, outc = vlib.coqchk(["Verif.Region.Props"])
+        okc, outc = vlib.coqchk(["Verif.Region.Props", "Verif.Region.PropsRead"])
         cov["coqchk"] = "ok" if okc else outc[-300:]
         if not okc:
-            v.violation({"kind": "proof", "theorem_or_file": "coqchk Verif.Region.Props", "what": outc[-400:]}, has_input=False)
+            v.violation({"kind": "proof", "theorem_or_file": "coqchk Verif.Region.Props Verif.Region.PropsRead", "what": outc[-400:]}, has_input=False)
     cov.update(evaluations=mstats.get("cases", 0) + stats["oracle_evals"], distinct_nontrivial=distinct,
                rule="seeded sequences (classes rand: any topology change incl. leaderless regions, real: every region always led, f07: cache miss in the middle + cached unbounded last region, "
                     "many: >128 regions, unit: merger/rangesAfterKey/gap check on arbitrary chains) of split/merge/transfer-leader/add-remove peer/stop-start "
@@ -549,7 +580,7 @@ def main(tier, replay):
                     "that touch PD or the merger",
                samples=samples, traces_validated_against_impl=mstats.get("cases", 0), input_distribution=classes,
                sequences=mstats.get("seqs", 0), store_replies_compared=mstats.get("replies", 0), invariant_states_checked=mstats.get("inv_checked", 0), invariant_failures=len(invs), truth_wf_checked=mstats.get("wf_checked", 0), histories_checked=mstats.get("hist_checked", 0), history_states=mstats.get("hist_states", 0), model_mismatches=len(mism), oracle_failures=len([f for f in fails if not f["finding_class"]]),
-               known_finding_hits=len([f for f in fails if f["finding_class"]]), bucket_lookups=stats.get("bucket_lookups", 0), stuck_rounds=stats.get("stuck_rounds", 0), sender_convergences=stats.get("sender_convs", 0), sender_effects_explained=stats.get("sender_prims", {}), observations={"bucket_fallback_unclamped": stats.get("obs_bucket_fallback_unclamped", 0)},
+               known_finding_hits=len([f for f in fails if f["finding_class"]]), bucket_lookups=stats.get("bucket_lookups", 0), stuck_rounds=stats.get("stuck_rounds", 0), sender_convergences=stats.get("sender_convs", 0), sender_effects_explained=stats.get("sender_prims", {}), replica_reads=stats.get("replica_reads", 0), observations={"bucket_fallback_unclamped": stats.get("obs_bucket_fallback_unclamped", 0), "follower_read_seed_wrap_falls_back_to_leader": stats.get("obs_follower_seed_wrap", 0), "probe_follower_wrap": stats.get("probe_follower_wrap", [])},
                convergence_rounds={str(k): n for k, n in sorted(stats["conv_rounds"].items())}, convergence_bound=CONV_BOUND)
     rc = v.finish()
     vlib.write_evidence(PID, cov, t0, violations=len(v.violations), level="proof",
